@@ -509,5 +509,64 @@ Proof.
             constructor; bcsimpl; cbn [alive held deq_busy]; rewrite ?Ea;
             first [discriminate|intros _; specialize (L1 eq_refl); lia
                   |destruct (pp s); first [discriminate Hnp|exact I|exact L2]]).
-  all: match goal with |- ?G => idtac G end.
-Abort.
+  - (* DeqRet qos 0 *)
+    cbn [wb_step] in Hw; injection Hw as <-; cbn [next_ack] in Ea.
+    destruct backack; constructor; bcsimpl; cbn [alive held deq_busy]; rewrite ?Ea;
+      first [intros _; specialize (L1 eq_refl); lia|destruct (pp s); first [discriminate Hnp|exact I|exact L2]].
+  - (* Save ok *)
+    destruct Hsh as (m & id & -> & Hq).
+    match goal with Hx : packet_eqb _ _ = true |- _ => apply packet_eqb_publish_l in Hx; subst end.
+    cbn [wb_step] in Hw; injection Hw as <-; cbn [next_ack] in Ea.
+    destruct ba; constructor; bcsimpl; cbn [alive held deq_busy]; rewrite ?Ea;
+      first [intros _; specialize (L1 eq_refl); lia|destruct (pp s); first [discriminate Hnp|exact I|exact L2]].
+  - (* Send ok *)
+    destruct Hsh as (m & id & ->).
+    match goal with Hx : packet_eqb _ _ = true |- _ => apply packet_eqb_publish_l in Hx; subst end.
+    cbn [next_ack] in Ea. cbn [counted_id] in F3. destruct (m_qos m =? 0) eqn:Eq.
+    + assert (Et : t' = t) by (eapply wb_tx_uncounted; [|exact Hw]; cbn [counted_id]; rewrite Eq; reflexivity).
+      subst t'. constructor; bcsimpl; cbn [alive held deq_busy]; rewrite ?Ea;
+        first [intros _; specialize (L1 eq_refl); lia|destruct (pp s); first [discriminate Hnp|exact I|exact L2]].
+    + assert (Et : t' = WbSt (wb_w t) (fl_add id (wb_fl t)) (wb_spur t))
+        by (eapply wb_tx_counted; [|exact Hw]; cbn [counted_id]; rewrite Eq; reflexivity).
+      subst t'. destruct (F3 id eq_refl) as [Hnf _].
+      assert (Efl : fl_add id (wb_fl t) = id :: wb_fl t).
+      { unfold fl_add. destruct (nmem id (wb_fl t)) eqn:En; [apply nmem_true_iff in En; contradiction|reflexivity]. }
+      rewrite Efl. constructor; bcsimpl; cbn [alive held deq_busy wb_fl length]; rewrite ?Ea;
+        first [intros _; specialize (L1 eq_refl); lia|destruct (pp s); first [discriminate Hnp|exact I|exact L2]].
+  - (* Send fail *)
+    rewrite wb_tx_fail in Hw. injection Hw as <-. cbn [next_ack] in Ea.
+    constructor; bcsimpl; cbn [alive]; rewrite ?Ea; first [discriminate|destruct (pp s); first [discriminate Hnp|exact I|exact L2]].
+Qed.
+
+Lemma RLr_same s s' t u : same_pd s s' -> RLr s t u -> RLr s' t u.
+Proof.
+  intros Hs. apply RLr_frame; try reflexivity.
+  - apply (sp_cw _ _ Hs).
+  - apply (sp_tdeq _ _ Hs).
+  - rewrite (sp_dp _ _ Hs). intros Ha. split; [exact Ha|reflexivity].
+  - left. apply (sp_pp _ _ Hs).
+Qed.
+
+Lemma RLr_frozen s s' t u : frozen s s' -> RLr s t u -> RLr s' t u.
+Proof.
+  intros Hf. apply RLr_frame; try reflexivity.
+  - apply (fz_cw _ _ Hf).
+  - apply (fz_tdeq _ _ Hf).
+  - rewrite (fz_dp _ _ Hf). destruct (dp s); intros Ha; discriminate Ha.
+  - right. rewrite (fz_pp _ _ Hf). exact I.
+Qed.
+
+Lemma RLr_learned s s1 t u : learned s s1 -> RLr s t u -> RLr s1 t u.
+Proof.
+  intros Hl. apply RLr_frame; try reflexivity;
+    destruct Hl as [->|(g0 & _ & [[_ ->]|[[_ ->]|[[_ ->]|[_ ->]]]])]; bcsimpl;
+    first [reflexivity|left; reflexivity|intros Ha; split; [exact Ha|reflexivity]].
+Qed.
+
+(* Setup starts afresh *)
+Lemma RL_setup s t u c resumed fresh w p b u' :
+  INV s -> pp s = PSetup c -> RLr (setup_state s c resumed fresh w p b) t u'.
+Proof.
+  intros HI Hp. assert (Hd : dp s = DOff) by (apply (I_pre _ HI); rewrite Hp; reflexivity).
+  unfold setup_state. destruct fresh; constructor; bcsimpl; rewrite ?Hd; cbn [alive]; first [discriminate|exact I].
+Qed.
